@@ -263,6 +263,25 @@ def session(b, sch, js, rng, start_docs, slices, tid, ncalls, dom=None):
                     live.add("marklist", call("Mark.set_from", lambda: Mark.set_from(list(reversed(ms)))))
                     pt = rng.choice(list(sch.nodes.values()))
                     live.add("marklist", call("NodeType.allowed_marks", lambda: pt.allowed_marks(ms)))
+                    # the mark sets the documents themselves hold (node.marks, marks at a position), handed to
+                    # the set operations of marks and mark types
+                    held = []
+                    doc.descendants(lambda node, pos, parent, index: held.append(node.marks) if node.marks else None)
+                    try:
+                        held.append(doc.resolve(rng.randint(0, doc.content.size)).marks())
+                    except Exception:  # noqa: BLE001
+                        pass
+                    for hs in (held if len(held) <= 4 else rng.sample(held, 4)):
+                        live.add("marklist", hs)
+                        for mt in {x.type for x in hs} | {m.type}:
+                            live.add("marklist", call("MarkType.remove_from_set", lambda: mt.remove_from_set(hs)))
+                            call("MarkType.is_in_set", lambda: mt.is_in_set(hs))
+                        for x in list(hs)[:2] + [m]:
+                            live.add("marklist", call("Mark.remove_from_set", lambda: x.remove_from_set(hs)))
+                            live.add("marklist", call("Mark.add_to_set", lambda: x.add_to_set(hs)))
+                            call("Mark.is_in_set", lambda: x.is_in_set(hs))
+                        live.add("marklist", call("NodeType.allowed_marks", lambda: pt.allowed_marks(hs)))
+                        call("Mark.same_set", lambda: Mark.same_set(hs, ms))
             elif kind == "json":
                 name = "to_json/from_json"
                 j = call("Node.to_json", doc.to_json)
